@@ -11,6 +11,18 @@
 // programs named by configuration values, the final index / work tree / object
 // store. A difference is minimised key by key before it gets a signature.
 //
+// Precedence clause ("a value also set in Git's own configuration always
+// wins"): besides the random precedence cases a stratified block walks every
+// allow-listed key x kind of the Git-side value {other non-empty value, empty
+// string, whitespace only, the very value .lfsconfig holds, boolean spelled
+// differently, boolean as a bare key} x place of the Git-side setting
+// {.git/config, ~/.gitconfig, `git -c`, GIT_CONFIG_COUNT/KEY/VALUE, included
+// file}. The oracle is the same differential: the twin whose .lfsconfig lacks
+// the key holds the identical Git configuration, so whatever git-lfs makes of
+// an empty/blank/odd value it must make of it in both twins; no defaulting
+// rule of git-lfs is assumed. Git itself is asked (`git config -z -l`, same
+// cwd/env/-c) to confirm it reads the setting as the generator intended.
+//
 // Weakest reading taken: stderr is NOT compared (the warning listing ignored
 // keys legitimately differs); a key outside the allow-list that changes nothing
 // observable is fine.
@@ -103,6 +115,17 @@ func (ev *evaluator) evalCase(c kase) []verdict {
 	run.Count("sentinel_checks", int64(nSent))
 	run.Count("listener_checks", 1)
 	run.Count("precedence_checks", int64(nOver))
+	for _, g := range c.GitCfg {
+		if g.OKind == "" {
+			continue
+		}
+		run.Count("override_kind_"+g.OKind, 1)
+		run.Count("override_where_"+g.Scope, 1)
+		if c.Kind == "override" {
+			run.Count("override_checks_stratified", 1)
+		}
+	}
+	run.Count("gitconfig_settings_read_back_by_git", int64(a.GitCfgChecked+b.GitCfgChecked))
 	if len(a.SSH) > 0 {
 		run.Count("cases_with_ssh_invocation", 1)
 	}
@@ -201,7 +224,7 @@ func (ev *evaluator) evalCase(c kase) []verdict {
 			}
 		}
 	}
-	var names []string
+	var names, coords []string
 	allOver := true
 	var culprits []entry
 	for _, e := range cur {
@@ -211,32 +234,48 @@ func (ev *evaluator) evalCase(c kase) []verdict {
 			if !e.Overridden {
 				allOver = false
 			}
+			for _, g := range c.GitCfg {
+				if g.K == e.K {
+					coords = append(coords, g.coord(e.Name))
+				}
+			}
 		}
 	}
 	names = uniq(names)
 	sort.Strings(names)
+	coords = uniq(coords)
+	sort.Strings(coords)
 	sym := "behaviour-differs"
 	what := "behaviour with L differs from behaviour with filter_doc(L)"
+	trigger := "key=" + strings.Join(names, "+")
 	if allOver && len(culprits) > 0 {
+		// the twins hold the same Git configuration and differ only in whether .lfsconfig also sets the key
 		sym = "lfsconfig-wins-over-gitconfig"
 		what = "a key set both in .lfsconfig and in git configuration: removing it from .lfsconfig changes behaviour"
+		trigger = strings.Join(coords, "+")
 	}
 	var ck []string
 	for _, e := range culprits {
 		ck = append(ck, fmt.Sprintf("%s=%q", e.K, e.Val))
+		for _, g := range c.GitCfg {
+			if g.K == e.K {
+				ck = append(ck, fmt.Sprintf("git configuration (%s, %s): %s=%q", g.Scope, g.OKind, g.K, g.Val))
+			}
+		}
 	}
-	return []verdict{{evid.Sig{Symptom: sym, Trigger: "key=" + strings.Join(names, "+")},
+	return []verdict{{evid.Sig{Symptom: sym, Trigger: trigger},
 		fmt.Sprintf("%s; location=%s variant=%s; minimal cause: %s; differences: %s", what, c.Loc, c.Variant, strings.Join(ck, ", "), strings.Join(d, " | ")),
 		detail(map[string]any{"minimal_entries": culprits, "differences": d})}}
 }
 
 func main() {
 	run := evid.New("C11", "exploration")
-	run.Rule = "seeded generator of .lfsconfig files from a table of every key git-lfs/git reads (lfs.*, lfs.<url>.*, lfs.customtransfer.*, lfs.extension.*, remote.*, branch.*, credential.*, core.*, http.*, url.*, filter.*, ssh.*, include*) with random case, quoted/dotted section syntax, quoting, comments, continuation lines, duplicates; 50% of the cases hold exactly one key outside the documented allow-list (templates visited round-robin), 30% mixtures (minimised key by key on failure), 15% precedence cases (allow-listed key also set in local/global/environment git configuration), 5% controls; location in {work tree, index only, HEAD only, bare} with decoy files in the locations that are not consulted; 8 remote layouts (http, auth-demanding, two remotes, single non-origin, dotted names, ssh, git://). Each case runs the command set in twin repositories (L vs filter_doc(L)) and compares stdout+exit code, requests at the in-driver endpoint, sentinel executions, final state. A class is (kind, location, key pattern | mixture shape | overridden keys)."
+	run.Rule = "seeded generator of .lfsconfig files from a table of every key git-lfs/git reads (lfs.*, lfs.<url>.*, lfs.customtransfer.*, lfs.extension.*, remote.*, branch.*, credential.*, core.*, http.*, url.*, filter.*, ssh.*, include*) with random case, quoted/dotted section syntax, quoting, comments, continuation lines, duplicates; 50% of the cases hold exactly one key outside the documented allow-list (templates visited round-robin), 30% mixtures (minimised key by key on failure), 15% precedence cases (allow-listed key also set in local/global/environment git configuration), 5% controls; plus a stratified precedence block (one case per (kind of Git-side value in {other, empty, blank, same, boolalt|valueless}, place of the Git-side setting in {local, global, cmdline, env, include}) pair per 25 cases, keys walked so that 10 blocks visit every triple; 0-2 further overridden keys per case; command set env/fetch/pull/push with an object that exists nowhere so that lfs.skipdownloaderrors and lfs.allowincompletepush are observable); location in {work tree, index only, HEAD only, bare} with decoy files in the locations that are not consulted; 8 remote layouts (http, auth-demanding, two remotes, single non-origin, dotted names, ssh, git://). Each case runs the command set in twin repositories (L vs filter_doc(L)) and compares stdout+exit code, requests at the in-driver endpoint, sentinel executions, final state. A class is (kind, location, key pattern | mixture shape | overridden keys)."
 	run.Assumptions = []string{
 		"allow-list = bullet list under '== LFSCONFIG' in docs/man/git-lfs-config.adoc; {*} and {name} match any non-empty subsection",
 		"stderr is not an observable (the 'unsafe keys were ignored' warning legitimately differs)",
 		"a key set in both places wins in git configuration iff removing it from .lfsconfig is unobservable",
+		"that holds for every value Git's configuration can give the key (empty, blank, bare boolean key included): the twins share the Git configuration, read back with git config -z -l, so no defaulting rule of git-lfs is assumed",
 		"syntactically invalid .lfsconfig files are out of scope (every generated file is parsed back with git config -z)",
 		"proxy sentinels can only fire when the fake endpoint listens on a non-loopback address (git-lfs never proxies loopback); see coverage.listener_host",
 	}
@@ -307,6 +346,18 @@ func main() {
 		}
 		for i := 0; i < n; i++ {
 			c := ev.gen.genCase(i)
+			if f := os.Getenv("C11_FILTER"); f != "" && !strings.Contains(c.class(), f) { // development aid only
+				continue
+			}
+			cases = append(cases, c)
+		}
+		// precedence clause, stratified block: (key, kind of the Git-side value, place of the Git-side setting)
+		nOver := run.N(25, 1000)
+		if v := os.Getenv("C11_NOVER"); v != "" { // development aid only
+			nOver = atoi(v)
+		}
+		for j := 0; j < nOver; j++ {
+			c := ev.gen.genOverrideCase(n+j, j)
 			if f := os.Getenv("C11_FILTER"); f != "" && !strings.Contains(c.class(), f) { // development aid only
 				continue
 			}
